@@ -21,7 +21,10 @@ def make(ck, rnd, n, pid=PID):
     recs, metas = [], []
     for t in range(n):
         xorish = rnd.random() < 0.35       # parity logic lets every input transition through: long waveforms, overflows
-        c = gen.parity_circuit(rnd) if rnd.random() < 0.2 else gen.gen_circuit(rnd, max_gates=ck.pick(8, 14), max_ff=2, kinds=['XOR2', 'XNOR2', 'XOR3', 'XNOR3', 'XOR4', 'BUF1'] if xorish else None)
+        reuse = rnd.random() < 0.3
+        strip = rnd.random() < (0.7 if reuse else 0.4)
+        # with memory reuse only ports are observable: deeper circuits, so that released memory is actually handed out again
+        c = gen.parity_circuit(rnd) if rnd.random() < 0.2 else gen.gen_circuit(rnd, max_gates=ck.pick(16 if reuse else 8, 20 if reuse else 14), max_ff=2, kinds=['XOR2', 'XNOR2', 'XOR3', 'XNOR3', 'XOR4', 'BUF1'] if xorish else None)
         nl = len(c.lines)
         lanes = rnd.choice([1, 2, 3, 5])
         offgrid = rnd.random() < 0.25
@@ -30,15 +33,15 @@ def make(ck, rnd, n, pid=PID):
         else:
             d = gen.rand_delays(rnd, c, vals=(0, 0, 1, 2, 3, 5))
         caps = rnd.choice([4, 4, 8, 16, [rnd.choice([4, 8, 16]) for _ in range(nl + 3)], [rnd.choice([4, 4, 12]) for _ in range(nl + 3)]])
-        inw = wrec.rand_inputs(rnd, c, lanes, multi=True)
+        via_s = rnd.random() < 0.3         # stimulus through s[0..2] + s_to_c() instead of waveforms written into the input slots
+        inw = wrec.rand_inputs(rnd, c, lanes, multi=not via_s)
         cls = rnd.choice([WaveSim, WaveSimCuda])
-        reuse, strip = rnd.random() < 0.3, rnd.random() < 0.4
         if strip and not offgrid:
             for f in c.forks.values():
                 for l in f.ins:
                     if l is not None:
                         d[:, l.index] = 0
-        mt = dict(reuse=reuse, strip=strip, warm=wrec.rand_inputs(rnd, c, lanes, multi=True) if rnd.random() < 0.4 else None, circuit=gen.circuit_state(c), lanes=lanes, delays=d.tolist(), caps=caps, inw=inw, cls=cls.__name__, offgrid=offgrid,
+        mt = dict(via_s=via_s, reuse=reuse, strip=strip, warm=wrec.rand_inputs(rnd, c, lanes, multi=True) if rnd.random() < 0.4 else None, circuit=gen.circuit_state(c), lanes=lanes, delays=d.tolist(), caps=caps, inw=inw, cls=cls.__name__, offgrid=offgrid,
                   desc='%s caps=%s offgrid=%s reuse=%s strip=%s' % (cls.__name__, caps if isinstance(caps, int) else 'per-line', offgrid, reuse, strip))
         recs.append(build(mt, pid))
         metas.append(mt)
@@ -52,7 +55,7 @@ def build(mt, pid=PID):
     rec = wrec.base_record(pid, c, mt['lanes'], np.zeros_like(d) if mt['offgrid'] else d, True, mt['inw'])
     rec['has']['c03'] = True
     try:
-        w = wrec.run_wave(getattr(wave_sim, mt['cls']), c, d, mt['lanes'], mt['caps'], mt['inw'], reuse=mt.get('reuse', False), strip=mt.get('strip', False), warmup=mt.get('warm'))
+        w = wrec.run_wave(getattr(wave_sim, mt['cls']), c, d, mt['lanes'], mt['caps'], mt['inw'], reuse=mt.get('reuse', False), strip=mt.get('strip', False), warmup=mt.get('warm'), via_s=mt.get('via_s', False))
         enc = wrec.Enc()
         rec.update(wrec.observe(w, c, mt['lanes'], enc, lines=not mt.get('reuse', False)))
         if mt['offgrid']:
@@ -86,7 +89,8 @@ def main(tier=None, replay=None):
     ck.count('records-cuda', sum(1 for m in metas if m['cls'] == 'WaveSimCuda'))
     ck.count('records-reuse', sum(1 for m in metas if m['reuse']))
     ck.count('records-strip', sum(1 for m in metas if m['strip']))
-    ck.need_cover(['overflowed-line-waveforms', 'records-offgrid-delays', 'records-cuda', 'records-reuse', 'records-strip'])
+    ck.count('records-s_to_c-after-handwritten-warmup', sum(1 for m in metas if m['via_s'] and m['warm'] is not None))
+    ck.need_cover(['records-s_to_c-after-handwritten-warmup', 'overflowed-line-waveforms', 'records-offgrid-delays', 'records-cuda', 'records-reuse', 'records-strip'])
     for m in metas:
         ck.nontrivial.add(gen.digest(m['circuit']) + gen.digest(m['inw']))
     ck.sample(dict(input_images=metas[0]['inw'][0], line0_waveforms=recs[0]['waves'][0] if recs[0]['waves'] else None, captured=recs[0]['s'][-1]))
